@@ -142,7 +142,7 @@ Theorem C09_swap_rows_lazy_eq_eager : forall p nr m r1 r2,
 Proof. exact swap_rows_lazy_eq_eager. Qed.
 Print Assumptions C09_swap_rows_lazy_eq_eager.
 
-(* the code as found (before /repo commit 2044b50d4): _orderRows reset the dictionaries only below the number of columns *)
+(* the code as found (before /repo commit 6b7166ead): _orderRows reset the dictionaries only below the number of columns *)
 Theorem C09_order_rows_as_found_refuted :
   exists p nr m, let fl := {| f_heap_fix := true; f_lazy_fix := true; f_order_fix := false; f_ra := false |} in
     a_abs p nr (a_order fl false p m) <> a_abs p nr m.
